@@ -301,7 +301,10 @@ def run_one(case, first, switches, record_tids=False, free=False, handoff=False,
         if S.HOLDER_STATS.get('locks_created', 0) == 0:
             # the cache created no lock through cacheutils.RLock: the shim cannot see lock waits
             return None, None, None, None, 'no-lock-attribute', cache
-        hist, status = S.run_threads(sc, mon, case['programs'], do_op)
+        # every third schedule (a fixed function of the case and schedule, so replays agree) runs its workers as raw
+        # OS threads that the threading module does not know about
+        raw = case.get('raw', (first + len(switches or ()) + sum(len(p_) for p_ in case['programs'])) % 3 == 0)
+        hist, status = S.run_threads(sc, mon, case['programs'], do_op, raw=raw)
     return cache, model, st0, hist, status, sc
 
 
@@ -797,6 +800,8 @@ def run(ctx):
             explore_case(ctx, case, 'p%d.%d' % (ctx.shard, i), r)
         stress(ctx, ctx.rng('stress'), 15 if ctx.tier == 'quick' else 1500)
     finally:
+        for k_ in ('raw_thread_runs', 'raw_thread_runs_with_only_main_registered'):
+            ctx.stats.count('schedules:' + k_, S.HOLDER_STATS.get(k_, 0))
         if _monitor is not None:
             _monitor.close()
 
